@@ -126,6 +126,17 @@ pub fn long_chain(plan: Plan, tier: Tier) -> Box<dyn Config> {
     let mut h = ins(60);
     h.extend((0..60).filter(|i| i % 3 == 1).map(MapOp::Remove));
     seeds.push(h);
+    // a full 64-bucket table thinned to under half: the next insertion rehashes in place with more than one
+    // group's worth of elements in one probe sequence (which wraps around the end under the MAX plan)
+    for removed in [30u8, 35] {
+        let mut h = ins(56);
+        h.extend((0..removed).map(MapOp::Remove));
+        seeds.push(h);
+    }
+    let mut h = ins(56);
+    h.extend((0..56).filter(|i| i % 2 == 0).map(MapOp::Remove));
+    h.extend([1u8, 3].map(MapOp::Remove));
+    seeds.push(h);
     b.seeds = seeds;
     Box::new(b)
 }
@@ -137,6 +148,7 @@ pub fn configs(tier: Tier) -> Vec<Box<dyn Config>> {
     v.push(Box::new(super::rehash::RehashGrammar { tier }));
     v.push(long_chain(Plan::Zero, tier));
     v.push(long_chain(Plan::Max, tier));
+    v.push(long_chain(Plan::Back, tier));
     v.push(closed_wrappers::<TKey, TVal>(Plan::Zero, if q { 9 } else { 12 }, tier));
     v.push(closed_wrappers::<PKey, PVal>(Plan::Cluster(2), if q { 6 } else { 8 }, tier));
     if q {
